@@ -1,9 +1,9 @@
-(* C23 proofs, part 5: ArrayView (src/records/array.rs) on arbitrary bytes.
-   ArrayView::new accepts anything of 8 bytes or more; after that
-     * elem_type panics exactly on a type byte that is no DataType discriminant;
-     * is_null / the fixed-width getters / get_blob / get_text neither panic nor read outside the data when
-       the null bitmap, the element area (or the offset table and the announced element) lie inside the data
-       (wf_bitmap / wf_fixed / wf_var, decidable) - and they do panic on small inputs that violate it. *)
+(* C23 proofs, part 5: ArrayView (src/records/array.rs) on arbitrary bytes (code since 5281222).
+   ArrayView::new returns a view or an error for every byte string, and for every view it returns, elem_type,
+   is_null and the element read the caller's dispatch selects (array_elem = sql/decoder.rs format_array: the
+   getter of the stored element type) return a value or an error.  The getters themselves are still unchecked:
+   the wf_* lemmas state the layout each one needs, and validate() establishes exactly that for the getter
+   matching the stored type.  (Before 5281222 new() accepted any 8 bytes: findings F-C23-6, F-C23-7.) *)
 From Coq Require Import ZArith List Bool Lia ZifyBool.
 From TV Require Import Lib.MachInt Lib.MachIntFacts Model.Utf8 Model.StoredBytes Model.ArrayView Proof.StoredBytes.
 Import ListNotations.
@@ -17,11 +17,6 @@ Arguments Z.sub : simpl never.
 Arguments Z.pow : simpl never.
 Arguments Z.of_nat : simpl never.
 Arguments Z.to_nat : simpl never.
-
-Lemma array_new_total_l : forall d, value_or_error (array_new d).
-Proof. intros d. unfold array_new. destruct (_ <? _); exact I. Qed.
-Lemma array_new_len d u : array_new d = Ok u -> ARRAY_HEADER_SIZE <= blen d.
-Proof. unfold array_new. destruct (Z.ltb_spec (blen d) ARRAY_HEADER_SIZE); [discriminate | auto]. Qed.
 
 (* n unchecked byte reads: inside the data they succeed with a non-negative value *)
 Lemma le_at_ok d : bytes_ok d = true -> forall n p, 0 <= p -> p + Z.of_nat n <= blen d ->
@@ -45,10 +40,11 @@ Lemma alen_ok d : bytes_ok d = true -> ARRAY_HEADER_SIZE <= blen d -> exists n, 
 Proof. intros Hb Hl. unfold alen, ARRAY_HEADER_SIZE in *. apply le_at_ok; [exact Hb | lia | lia]. Qed.
 
 (* ------------------------------------------------------------------ elem_type *)
-Lemma elem_type_panic_iff_l : forall d, array_new d = Ok tt ->
+Definition array_type_bad (d : list Z) : bool := negb (dtype_code_ok (bidx d 4)).
+Lemma elem_type_panic_iff_l : forall d, ARRAY_HEADER_SIZE <= blen d ->
   (elem_type d = Panic <-> array_type_bad d = true).
 Proof.
-  intros d Hn. apply array_new_len in Hn. unfold ARRAY_HEADER_SIZE in Hn.
+  intros d Hn. unfold ARRAY_HEADER_SIZE in Hn.
   unfold elem_type, array_type_bad. rewrite idx_ok by (unfold bidx_ok; lia). cbn [bind].
   destruct (dtype_code_ok (bidx d 4)); cbn [negb]; split; congruence.
 Qed.
@@ -120,13 +116,150 @@ Proof.
   destruct (get_blob d i); cbn [bind]; try contradiction; try exact I. destruct (valid_utf8 a); exact I.
 Qed.
 
-(* ------------------------------------------------------------------ the refutations *)
-(* 8..13 bytes accepted by ArrayView::new on which a getter panics *)
-Lemma array_getters_refuted_l :
-  array_new [8;0;0;0;99;1;0;0] = Ok tt /\ elem_type [8;0;0;0;99;1;0;0] = Panic /\
-  array_new [8;0;0;0;2;1;1;0] = Ok tt /\ is_null [8;0;0;0;2;1;1;0] 0 = Panic /\
-  get_fixed [8;0;0;0;2;1;1;0] 4 0 = Panic /\ get_bool [8;0;0;0;2;1;1;0] 0 = Panic /\
-  array_new [0;0;0;0;21;1;1;0;0;0;0;0;0] = Ok tt /\ is_null [0;0;0;0;21;1;1;0;0;0;0;0;0] 0 = Ok false /\
-  get_blob [0;0;0;0;21;1;1;0;0;0;0;0;0] 0 = Panic /\ get_text [0;0;0;0;21;1;1;0;0;0;0;0;0] 0 = Panic /\
-  get_blob [13;0;0;0;21;1;1;0;0;9;0;0;0] 0 = Panic.
+(* ------------------------------------------------------------------ validate() *)
+Lemma read_offset_ok d n i : bytes_ok d = true -> 0 <= n -> 0 <= i ->
+  ARRAY_HEADER_SIZE + bitmap_size n + (i + 1) * 4 <= blen d -> exists st, read_offset d n i = Ok st /\ 0 <= st.
+Proof.
+  intros Hb Hn Hi Hl. unfold read_offset, ARRAY_HEADER_SIZE, bitmap_size in *.
+  apply le_at_ok; [exact Hb | lia | lia].
+Qed.
+
+Lemma offsets_ok_voe d n room : bytes_ok d = true -> 0 <= n ->
+  forall k i prev, 0 <= i -> ARRAY_HEADER_SIZE + bitmap_size n + (i + Z.of_nat k) * 4 <= blen d ->
+  value_or_error (offsets_ok d n room k i prev).
+Proof.
+  intros Hb Hn. induction k as [|k IH]; intros i prev Hi Hl; cbn [offsets_ok]; [exact I|].
+  destruct (read_offset_ok d n i Hb Hn Hi) as (st & -> & _); [lia|]. cbn [bind].
+  destruct ((prev <=? st) && (st <=? room)); [|exact I]. apply IH; lia.
+Qed.
+
+Lemma offsets_ok_spec d n room : forall k i prev, offsets_ok d n room k i prev = Ok tt ->
+  forall j, i <= j < i + Z.of_nat k ->
+  exists st, read_offset d n j = Ok st /\ prev <= st <= room /\
+             (j + 1 < i + Z.of_nat k -> exists st', read_offset d n (j + 1) = Ok st' /\ st <= st').
+Proof.
+  induction k as [|k IH]; intros i prev H j Hj; [lia|].
+  cbn [offsets_ok] in H. destruct (read_offset d n i) as [st0| | |] eqn:E0; cbn [bind] in H; try discriminate.
+  destruct (Z.leb_spec prev st0) as [P|P]; cbn [andb] in H; [|discriminate].
+  destruct (Z.leb_spec st0 room) as [Q|Q]; [|discriminate].
+  destruct (Z.eq_dec j i) as [->|Ne].
+  - exists st0. split; [exact E0|]. split; [lia|]. intros Hnext.
+    destruct (IH (i + 1) st0 H (i + 1) ltac:(lia)) as (st' & E' & B' & _). exists st'. split; [exact E' | lia].
+  - destruct (IH (i + 1) st0 H j ltac:(lia)) as (st & E & B & Nx). exists st. split; [exact E|]. split; [lia|].
+    intros Hnext. apply Nx. lia.
+Qed.
+
+(* what a successful new() has established *)
+Lemma array_new_inv d : bytes_ok d = true -> array_new d = Ok tt ->
+  ARRAY_HEADER_SIZE <= blen d /\ dtype_code_ok (bidx d 4) = true /\
+  exists n, alen d = Ok n /\ 0 <= n /\
+    match elem_fixed_size (bidx d 4) with
+    | Some sz => ARRAY_HEADER_SIZE + bitmap_size n + n * sz <= blen d
+    | None => exists total, total_size d = Ok total /\
+              ARRAY_HEADER_SIZE + bitmap_size n + n * 4 <= total /\ total <= blen d /\
+              offsets_ok d n (total - (ARRAY_HEADER_SIZE + bitmap_size n + n * 4)) (Z.to_nat n) 0 0 = Ok tt
+    end.
+Proof.
+  intros Hb. unfold array_new. destruct (Z.ltb_spec (blen d) ARRAY_HEADER_SIZE) as [L|G]; [discriminate|].
+  unfold array_validate. rewrite idx_ok by (unfold bidx_ok, ARRAY_HEADER_SIZE in *; lia). cbn [bind].
+  destruct (dtype_code_ok (bidx d 4)) eqn:T; [|discriminate].
+  destruct (alen_ok d Hb G) as (n & En & Hn). rewrite En. cbn [bind]. cbv zeta.
+  intros H. split; [exact G|]. split; [reflexivity|]. exists n. split; [reflexivity|]. split; [exact Hn|].
+  destruct (elem_fixed_size (bidx d 4)) as [sz|].
+  - destruct (Z.leb_spec (ARRAY_HEADER_SIZE + bitmap_size n + n * sz) (blen d)); [assumption | discriminate].
+  - destruct (total_size d) as [total| | |]; cbn [bind] in H; try discriminate.
+    destruct (Z.leb_spec (ARRAY_HEADER_SIZE + bitmap_size n + n * 4) total) as [A|A]; cbn [andb] in H; [|discriminate].
+    destruct (Z.leb_spec total (blen d)) as [B|B]; [|discriminate].
+    exists total. auto.
+Qed.
+
+Lemma array_new_total_l : forall d, bytes_ok d = true -> value_or_error (array_new d).
+Proof.
+  intros d Hb. unfold array_new. destruct (Z.ltb_spec (blen d) ARRAY_HEADER_SIZE) as [L|G]; [exact I|].
+  unfold array_validate. rewrite idx_ok by (unfold bidx_ok, ARRAY_HEADER_SIZE in *; lia). cbn [bind].
+  destruct (dtype_code_ok (bidx d 4)); [|exact I].
+  destruct (alen_ok d Hb G) as (n & En & Hn). rewrite En. cbn [bind]. cbv zeta.
+  destruct (elem_fixed_size (bidx d 4)); [destruct (_ <=? _); exact I|].
+  destruct (le_at_ok d Hb 4 0) as (total & Et & _); [lia | unfold ARRAY_HEADER_SIZE in G; lia |].
+  unfold total_size. rewrite Et. cbn [bind].
+  destruct (Z.leb_spec (ARRAY_HEADER_SIZE + bitmap_size n + n * 4) total) as [A|A]; cbn [andb]; [|exact I].
+  destruct (Z.leb_spec total (blen d)) as [B|B]; [|exact I].
+  apply offsets_ok_voe; [exact Hb | exact Hn | lia | rewrite Z2Nat.id by lia; lia].
+Qed.
+
+(* ------------------------------------------------------------------ the property, for views new() returns *)
+Lemma bitmap_size_nonneg n : 0 <= n -> 0 <= bitmap_size n.
+Proof. unfold bitmap_size. lia. Qed.
+
+Lemma array_view_total_l : forall d i, bytes_ok d = true -> array_new d = Ok tt -> 0 <= i ->
+  value_or_error (elem_type d) /\ value_or_error (is_null d i) /\ value_or_error (array_elem d i).
+Proof.
+  intros d i Hb Hnew Hi.
+  destruct (array_new_inv d Hb Hnew) as (G & T & n & En & Hn & Hlay).
+  pose proof (bitmap_size_nonneg n Hn) as Hbm.
+  assert (ET : elem_type d = Ok (bidx d 4)).
+  { unfold elem_type. rewrite idx_ok by (unfold bidx_ok, ARRAY_HEADER_SIZE in *; lia). cbn [bind]. rewrite T. reflexivity. }
+  assert (WB : wf_bitmap d = true).
+  { unfold wf_bitmap. rewrite En. destruct (elem_fixed_size (bidx d 4)) as [sz|] eqn:F.
+    - assert (0 <= sz) by (unfold elem_fixed_size in F;
+        repeat match type of F with (if ?c then _ else _) = _ => destruct c end; inversion F; lia).
+      assert (0 <= n * sz) by nia. lia.
+    - destruct Hlay as (total & _ & A & B & _). lia. }
+  pose proof (is_null_total_l d i Hb WB Hi) as HN.
+  split; [rewrite ET; exact I|]. split; [exact HN|].
+  unfold array_elem. rewrite ET. cbn [bind].
+  destruct (is_null d i) as [nl| | |] eqn:EN; cbn [bind]; try contradiction; [|exact I].
+  destruct nl; [exact I|].
+  set (t := bidx d 4) in *.
+  assert (FX : forall w, elem_fixed_size t = Some (Z.of_nat w) -> value_or_error (get_fixed d w i)).
+  { intros w F. apply get_fixed_total_l; [exact Hb | | exact Hi]. unfold wf_fixed. rewrite En. rewrite F in Hlay. lia. }
+  assert (VAR : elem_fixed_size t = None -> value_or_error (get_blob d i) /\ value_or_error (get_text d i)).
+  { intros F. rewrite F in Hlay. destruct Hlay as (total & Et & A & B & OK).
+    (* the element is not null, so i < n *)
+    assert (Lt : i < n).
+    { unfold is_null in EN. rewrite En in EN. cbn [bind] in EN. destruct (Z.geb_spec i n); [inversion EN | assumption]. }
+    destruct (offsets_ok_spec d n _ _ 0 0 OK i) as (st & Est & Bst & Nx); [rewrite Z2Nat.id by lia; lia|].
+    apply get_blob_total_l; [exact Hb | | exact Hi].
+    unfold wf_var. rewrite En, Et. cbv zeta. rewrite Est.
+    destruct (Z.ltb_spec (i + 1) n) as [L1|G1].
+    - destruct Nx as (st' & Est' & Hle); [rewrite Z2Nat.id by lia; lia|]. rewrite Est'.
+      destruct (offsets_ok_spec d n _ _ 0 0 OK (i + 1)) as (st2 & E2 & B2 & _); [rewrite Z2Nat.id by lia; lia|].
+      rewrite Est' in E2. inversion E2. subst st2. lia.
+    - lia. }
+  destruct (Z.eqb_spec t 1) as [E|_].
+  { pose proof (FX 2%nat) as H. rewrite E in H. specialize (H eq_refl).
+    destruct (get_fixed d 2 i); cbn [bind]; try contradiction; exact I. }
+  destruct ((t =? 2) || (t =? 4)) eqn:E24.
+  { assert (F : elem_fixed_size t = Some (Z.of_nat 4)) by (destruct (Z.eqb_spec t 2) as [->|]; [reflexivity|];
+      destruct (Z.eqb_spec t 4) as [->|]; [reflexivity | discriminate]).
+    pose proof (FX 4%nat F) as H. destruct (get_fixed d 4 i); cbn [bind]; try contradiction; exact I. }
+  destruct ((t =? 3) || (t =? 5)) eqn:E35.
+  { assert (F : elem_fixed_size t = Some (Z.of_nat 8)) by (destruct (Z.eqb_spec t 3) as [->|]; [reflexivity|];
+      destruct (Z.eqb_spec t 5) as [->|]; [reflexivity | discriminate]).
+    pose proof (FX 8%nat F) as H. destruct (get_fixed d 8 i); cbn [bind]; try contradiction; exact I. }
+  destruct (Z.eqb_spec t 0) as [E|_].
+  { assert (W : wf_fixed d 1 = true).
+    { unfold wf_fixed. rewrite En. rewrite E in Hlay. cbn in Hlay. lia. }
+    pose proof (get_bool_total_l d i Hb W Hi) as H.
+    destruct (get_bool d i); cbn [bind]; try contradiction; exact I. }
+  destruct ((t =? 20) || (t =? 24) || (t =? 25)) eqn:ET3.
+  { assert (F : elem_fixed_size t = None) by (destruct (Z.eqb_spec t 20) as [->|]; [reflexivity|];
+      destruct (Z.eqb_spec t 24) as [->|]; [reflexivity|]; destruct (Z.eqb_spec t 25) as [->|]; [reflexivity | discriminate]).
+    destruct (VAR F) as (_ & H). destruct (get_text d i); cbn [bind]; try contradiction; exact I. }
+  destruct (Z.eqb_spec t 21) as [E|_].
+  { assert (F : elem_fixed_size t = None) by (rewrite E; reflexivity).
+    destruct (VAR F) as (H & _). destruct (get_blob d i); cbn [bind]; try contradiction; exact I. }
+  exact I.
+Qed.
+
+(* ------------------------------------------------------------------ the former witnesses *)
+(* the small inputs on which the getters panic (they still would): new() now turns every one of them away *)
+Lemma array_former_witnesses_l :
+  elem_type [8;0;0;0;99;1;0;0] = Panic /\ array_new [8;0;0;0;99;1;0;0] = Err /\
+  is_null [8;0;0;0;2;1;1;0] 0 = Panic /\ get_fixed [8;0;0;0;2;1;1;0] 4 0 = Panic /\ array_new [8;0;0;0;2;1;1;0] = Err /\
+  get_blob [0;0;0;0;21;1;1;0;0;0;0;0;0] 0 = Panic /\ array_new [0;0;0;0;21;1;1;0;0;0;0;0;0] = Err /\
+  get_blob [13;0;0;0;21;1;1;0;0;9;0;0;0] 0 = Panic /\ array_new [13;0;0;0;21;1;1;0;0;9;0;0;0] = Err /\
+  array_new [12;0;0;0;2;1;1;0;0;5;0;0;0] = Ok tt /\ array_elem [12;0;0;0;2;1;1;0;0;5;0;0;0] 0 = Ok (ENum 5) /\
+  array_new [15;0;0;0;21;1;1;0;0;0;0;0;0;104;105] = Ok tt /\
+  array_elem [15;0;0;0;21;1;1;0;0;0;0;0;0;104;105] 0 = Ok (EBytes [104; 105]).
 Proof. vm_compute. repeat split. Qed.
